@@ -268,6 +268,9 @@ def r1(ctx: Ctx) -> None:
                        "weight is stripped, so [B, 3] is loaded as a one-pin net", lineno=fe.node.lineno, members=show(members)[:200])
     ctx.site(fe.where, "every member is a string")
     str_ok = any(il[0] == "for" and ("c", ("g", "isinstance"), (("s", ev, il[1]), ("g", "str")), ()) in top_asserts(il[3]) for il in lps[0][3])
+    # the same loop over the elements (index loops have this form): for name in entry[:-1]: assert isinstance(name, str)
+    str_ok = str_ok or any(il[0] == "for" and (il[2] == ev or (il[2][0] == "s" and il[2][1] == ev and il[2][2][0] == "slice")) and
+                           ("c", ("g", "isinstance"), (il[1], ("g", "str")), ()) in top_asserts(il[3]) for il in lps[0][3])
     if not str_ok:      # the same check spelt 'assert all(isinstance(name, str) for name in <the member entries>)'
         b0 = ("b", 1, 0)
         for t in top_asserts(lps[0][3]):
